@@ -257,7 +257,11 @@ def r5(ctx, cls):
          'a discarded connection must actually be closed', nontrivial=False)
   oi = prog.func(WM, 'WatermarkPoolSink._OpenImpl')
   t = U(oi.node).replace(' ', '')
-  ctx.ob('C07.R5', oi, 'Open obtains one connection and releases it into the pool', 'sink=self._Get()' in t and 'self._Release(sink)' in t and 'self._state=ChannelState.Open' in t, '_OpenImpl changed',
+  gets = [c for c in walk_no_nested(oi.node) if isinstance(c, ast.Call) and U(c.func) == 'self._Get']
+  rels = [c for c in walk_no_nested(oi.node) if isinstance(c, ast.Call) and U(c.func) == 'self._Release']
+  got = [U(st.targets[0]) for st in walk_no_nested(oi.node) if isinstance(st, ast.Assign) and gets and st.value is gets[0]]
+  ok_oi = len(gets) == 1 and len(rels) == 1 and len(rels[0].args) == 1 and (rels[0].args[0] is gets[0] or U(rels[0].args[0]) in got) and 'self._state=ChannelState.Open' in t
+  ctx.ob('C07.R5', oi, 'Open obtains one connection and releases it into the pool', ok_oi, '_OpenImpl changed',
          'opening the pool pre-creates the first connection through the same accounting', nontrivial=False)
 
 
